@@ -255,8 +255,16 @@ def check_seq(ctx, seq, shapes=SHAPES, share=False):
         if ctx.rng.random() < 0.3:
             # the same content as a document (items of a list root become the document's top-level content)
             doc = ht.HTMLDocument(*list(root)) if isinstance(root, ht.TagList) else ht.HTMLDocument(root)
-            dd = doc.render()["dependencies"]
+            drendered = doc.render()
+            dd = drendered["dependencies"]
             ctx.count("oracle.document_resolution")
+            # ... and what the document loads is what was resolved: the script of each resolved object once, of no other object
+            import re as _re2
+            loaded = _re2.findall(r'<script src="[^"]*?(f\d+\.js)"', drendered["html"])
+            want_loaded = [s_["src"] for x in want for s_ in x.script]
+            if loaded != want_loaded:
+                ctx.violation("resolution-order", "the scripts HTMLDocument loads in shape %s (%s) are not those of the resolved objects (%s)" % (shape, loaded[:6], want_loaded[:6]), w)
+                return False
             if [(x.name, str(x.version)) for x in dd] != [(x.name, str(x.version)) for x in want] or any(a != b for a, b in zip(dd, want)):
                 ctx.violation("resolution-order", "HTMLDocument.render()['dependencies'] in shape %s differs from the resolved list" % shape, w)
                 return False
